@@ -4,7 +4,7 @@ import graphlib as gl
 RULE = ('per generated graph and factory: every ordered pair (a, b) of nodes x the four is_*_of predicates, is_leaf, membership, '
         'iteration, every traversal, each with the argument given as CURIE with ":", CURIE with "_", TermId and Identified carrier; '
         'all compared with the Lean model (so all factories and all forms agree with each other); predicates additionally checked '
-        'against the traversals of the same implementation graph (also while such a traversal is still being consumed: the common-'
+        'against the traversals of the same implementation graph, of its pickled / deep-copied / copied clones and for `str`-subclass arguments (also while such a traversal is still being consumed: the common-'
         'relatives loop over every pair) and against their converses; index API of the indexed graph: '
         'idx_to_node/node_to_idx are inverse bijections on 0..n-1, root == idx_to_node(root_idx), every *_idx traversal and '
         'is_*_of_idx predicate is the image of the node API under that bijection. Exhaustive over all DAGs on <= 4 positions x '
@@ -84,6 +84,24 @@ def internal_consistency(ctx, factory, edges):
                     if got != want:
                         return (f'[x for x in get_{q}({a.value}) if {meth}(x, {b.value})] = {got} but get_{q}({a.value}) & get_{q2}({b.value}) '
                                 f'= {want}')
+        # a copy of the graph is the same graph: pickle round trip, deepcopy, shallow copy; and a `str` subclass is a `str`
+        import copy
+        import pickle
+
+        class Curie(str):
+            pass
+        for how, clone in (('pickle round trip', lambda x: pickle.loads(pickle.dumps(x))), ('deepcopy', copy.deepcopy), ('copy', copy.copy)):
+            h = clone(g)
+            if [t.value for t in h] != [t.value for t in g] or h.root != g.root:
+                return f'{how}: nodes / root differ'
+            for q in gl.QS:
+                for v in nodes:
+                    if set(gl.vals(getattr(h, 'get_' + q)(v))) != tr[q][v.value]:
+                        return f'{how}: get_{q}({v.value}) differs from the original graph'
+        for v in nodes:
+            for q in gl.QS:
+                if set(gl.vals(getattr(g, 'get_' + q)(Curie(v.value)))) != tr[q][v.value]:
+                    return f'get_{q}(<str subclass {v.value!r}>) differs from get_{q}(TermId)'
         if hasattr(g, 'root_idx'):
             n = len(nodes)
             back = {}
